@@ -1020,3 +1020,522 @@ Proof.
   intros Hc. pose proof (rw_no_bad_guarded _ Hc) as Hb.
   assert (X : bad (fst (rw_run bad_witness)) = true) by (vm_compute; reflexivity). congruence.
 Qed.
+
+(* ================= layer 2: converse clauses (every owner state has its item) ================= *)
+Lemma head_fset gs k gr j : head gr = head (gs k) -> head (fset gs k gr j) = head (gs j).
+Proof. intros H. unfold fset. destruct (Nat.eqb_spec j k); subst; auto. Qed.
+
+(* the sentinel is final *)
+Lemma sent_work sp u g w rest k : head (grp g k) = HSent -> head (grp (fst (do_work sp u g w rest)) k) = HSent.
+Proof.
+  intros H.
+  assert (Hrel : forall e r, head (grp (fst (do_rel u g e r)) k) = HSent).
+  { intros e r. unfold do_rel. cbn [fst]. destruct (is_wrapper (tst (tok g e))); cbn;
+      (rewrite head_fset; [exact H|]); destruct (Nat.eqb (pred (refs (grp g (tgrp (tok g e))))) 0); reflexivity. }
+  destruct w as [e|e nx|e|e|k0|k0|k0 tmp|]; cbn [do_work].
+  - destruct (negb (is_starting u (tst (tok g e)))); [exact H|].
+    destruct (hptr (head (grp g (tgrp (tok g e))))); exact H.
+  - destruct (negb (is_starting u (tst (tok g e)))); [exact H|].
+    destruct (head (grp g (tgrp (tok g e)))) as [|l] eqn:Eh; [exact H|].
+    destruct (nxt_eqb nx (hptr (HList l)) && negb sp); [|exact H].
+    cbn. unfold fset. destruct (Nat.eqb_spec k (tgrp (tok g e))); subst; [congruence|exact H].
+  - destruct (negb (is_granting u (tst (tok g e)))); [exact H|]. cbn [fst]. destruct (tuse (tok g e)); exact H.
+  - destruct (negb (owned_by u (tst (tok g e)))); [exact H|]. apply Hrel.
+  - destruct (negb (Nat.eqb (gphase (grp g k0)) 1 && Nat.eqb (gown (grp g k0)) u)); [exact H|].
+    cbn [fst]. unfold do_vdec. match goal with |- context[if ?b then _ else _] => destruct b end; cbn;
+      (rewrite head_fset; [exact H|reflexivity]).
+  - destruct (negb (Nat.eqb (gphase (grp g k0)) 2 && Nat.eqb (gown (grp g k0)) u)); [exact H|].
+    destruct (linked (grp g k0)); cbn; (rewrite head_fset; [exact H|reflexivity]).
+  - destruct (negb (match tmp with None => Nat.eqb k0 0 | Some e => is_done u (tst (tok g e)) && Nat.eqb (tgrp (tok g e)) k0 end));
+      [exact H|].
+    destruct (head (grp g k0)) as [|l] eqn:Eh; [exact H|].
+    cbn. unfold fset. destruct (Nat.eqb_spec k k0); subst; [reflexivity|exact H].
+  - destruct (malive g || negb (mvheld g)); [exact H|]. cbn [fst]. unfold do_vdec.
+    match goal with |- context[if ?b then _ else _] => destruct b end; exact H.
+Qed.
+
+Lemma sent_cmd u g c k : k < ngrp g -> head (grp g k) = HSent -> head (grp (fst (do_cmd u g c)) k) = HSent.
+Proof.
+  intros Hk H. destruct c as [sp|kd|e auto usev|e|e|e|e|]; cbn [do_cmd].
+  - exact H.
+  - destruct (negb (malive g)); [exact H|].
+    destruct kd, (mprev g), (mstate g) as [p|]; cbn; unfold fset;
+      repeat match goal with |- context[Nat.eqb ?a ?b] => destruct (Nat.eqb_spec a b); subst end; cbn; try exact H; lia.
+  - destruct (Nat.ltb e (ntok g) && is_sender (tst (tok g e))); exact H.
+  - destruct (Nat.ltb e (ntok g) && is_sender (tst (tok g e))); exact H.
+  - destruct (Nat.ltb e (ntok g) && kind_eqb (gkind (grp g (tgrp (tok g e)))) KR &&
+              (is_sender (tst (tok g e)) || is_live (tst (tok g e)))); [|exact H].
+    cbn. rewrite head_fset; [exact H|reflexivity].
+  - destruct (Nat.ltb e (ntok g) && is_live (tst (tok g e))); [|exact H].
+    unfold do_rel. cbn [fst]. destruct (is_wrapper (tst (tok g e))); cbn;
+      (rewrite head_fset; [exact H|]); destruct (Nat.eqb (pred (refs (grp g (tgrp (tok g e))))) 0); reflexivity.
+  - destruct (Nat.ltb e (ntok g) && is_live (tst (tok g e))); exact H.
+  - destruct (negb (malive g)); [exact H|]. destruct (mstate g); exact H.
+Qed.
+
+(* what a step establishes for the tokens / groups it touches: the new owner state is backed by an item of
+   the stepping thread's new list *)
+Definition backed_t (g' : shared) (l' : list work) (u e : nat) : Prop :=
+  match tst (tok g' e) with
+  | TStarting t => t = u /\ (In (WLoad e) l' \/ exists nx, In (WCas e nx) l')
+  | TGranting t => t = u /\ In (WGrant e) l'
+  | _ => True
+  end.
+Definition backed_g (g' : shared) (l' : list work) (u k : nat) : Prop :=
+  (1 <= gphase (grp g' k) -> gphase (grp g' k) <> 3 -> gown (grp g' k) = u /\ In (WDn k) l') /\
+  (S k < ngrp g' -> gphase (grp g' k) = 3 -> head (grp g' (S k)) = HSent \/ exists e, In (WDx (S k) (Some e)) l').
+
+Lemma tok_vdec g : tok (do_vdec g) = tok g.
+Proof. unfold do_vdec. destruct (Nat.eqb (pred (vrefs g)) 0 && negb (vfreed g)); reflexivity. Qed.
+Lemma grp_vdec g : grp (do_vdec g) = grp g.
+Proof. unfold do_vdec. destruct (Nat.eqb (pred (vrefs g)) 0 && negb (vfreed g)); reflexivity. Qed.
+Lemma ngrp_vdec g : ngrp (do_vdec g) = ngrp g.
+Proof. unfold do_vdec. destruct (Nat.eqb (pred (vrefs g)) 0 && negb (vfreed g)); reflexivity. Qed.
+
+Lemma do_rel_post t g e rest :
+  (forall e0, e0 <> e -> tok (fst (do_rel t g e rest)) e0 = tok g e0) /\
+  tst (tok (fst (do_rel t g e rest)) e) = TDead /\
+  (forall k, ph_same g (fst (do_rel t g e rest)) k \/ backed_g (fst (do_rel t g e rest)) (snd (do_rel t g e rest)) t k) /\
+  (forall x, In x rest -> In x (snd (do_rel t g e rest))) /\
+  ngrp (fst (do_rel t g e rest)) = ngrp g.
+Proof.
+  unfold do_rel. cbn [fst snd].
+  assert (X : forall g0, tok g0 = tok g -> grp g0 = grp g -> ngrp g0 = ngrp g ->
+    let g' := upd_grp (with_bad (set_tst g0 e TDead) (Nat.eqb (refs (grp g (tgrp (tok g e)))) 0)) (tgrp (tok g e))
+               (if Nat.eqb (pred (refs (grp g (tgrp (tok g e))))) 0
+                then set_phase (set_refs (grp g (tgrp (tok g e))) (pred (refs (grp g (tgrp (tok g e)))))) 1 t
+                else set_refs (grp g (tgrp (tok g e))) (pred (refs (grp g (tgrp (tok g e)))))) in
+    let l' := if Nat.eqb (pred (refs (grp g (tgrp (tok g e))))) 0
+              then WDv (tgrp (tok g e)) :: WDn (tgrp (tok g e)) :: rest else rest in
+    (forall e0, e0 <> e -> tok g' e0 = tok g e0) /\ tst (tok g' e) = TDead /\
+    (forall k, ph_same g g' k \/ backed_g g' l' t k) /\ (forall x, In x rest -> In x l') /\ ngrp g' = ngrp g).
+  { intros g0 E1 E2 E3. cbn zeta. split; [|split; [|split; [|split]]].
+    - intros e0 Hne. cbn. rewrite E1. rewrite fset_other by exact Hne. reflexivity.
+    - cbn. rewrite fset_same. reflexivity.
+    - intros k. unfold ph_same, backed_g. cbn. rewrite E2.
+      destruct (Nat.eq_dec k (tgrp (tok g e))) as [->|Hne]; [|left; rewrite !fset_other by exact Hne; split; reflexivity].
+      rewrite !fset_same.
+      destruct (Nat.eqb (pred (refs (grp g (tgrp (tok g e))))) 0); cbn; [right|left; split; reflexivity].
+      split; [intros _ _; split; [reflexivity|right; now left]|discriminate].
+    - intros x Hx. destruct (Nat.eqb (pred (refs (grp g (tgrp (tok g e))))) 0); [right; right; exact Hx|exact Hx].
+    - cbn. exact E3. }
+  destruct (is_wrapper (tst (tok g e))); apply X; reflexivity.
+Qed.
+
+Ltac g_same := let k0 := fresh "k0" in intros k0; left; split;
+  [unfold ph_same; rewrite ?grp_vdec; cbn; fse_goal; cbn; split; reflexivity | intros []].
+Ltac t_same := let e0 := fresh "e0" in intros e0; left; split;
+  [unfold tok_same; rewrite ?tok_vdec; cbn; split; reflexivity | intros []].
+Ltac t_one e := let e0 := fresh "e0" in let Hne := fresh "Hne" in let X := fresh "X" in
+  intros e0; destruct (Nat.eq_dec e0 e) as [->|Hne];
+  [right; unfold backed_t; cbn; rewrite ?fset_same; cbn
+  |left; split; [unfold tok_same; cbn; rewrite ?fset_other by exact Hne; split; reflexivity
+                |intros [X|[]]; congruence]].
+
+Lemma work_post sp u g w rest : GL g -> GS g -> GP g -> wl g u (w :: rest) ->
+  (forall e, (tok_same g (fst (do_work sp u g w rest)) e /\ ~ In e (wtoks w)) \/
+             backed_t (fst (do_work sp u g w rest)) (snd (do_work sp u g w rest)) u e) /\
+  (forall k, (ph_same g (fst (do_work sp u g w rest)) k /\ ~ In k (wgrps w)) \/
+             backed_g (fst (do_work sp u g w rest)) (snd (do_work sp u g w rest)) u k) /\
+  (forall k, wdx w = Some k -> head (grp (fst (do_work sp u g w rest)) k) = HSent) /\
+  (forall x, In x rest -> In x (snd (do_work sp u g w rest))) /\
+  ngrp (fst (do_work sp u g w rest)) = ngrp g.
+Proof.
+  intros [HI [_ [_ [_ HE]]]] HS HP H. unfold wl in H.
+  inversion H; subst; cbn [do_work wtoks wgrps wdx].
+  - (* WLoad *)
+    rewrite H2. cbn [is_starting]. rewrite Nat.eqb_refl. cbn [negb].
+    destruct (hptr (head (grp g (tgrp (tok g e))))) eqn:Ep; cbn [fst snd];
+      (split; [|split; [g_same|split; [discriminate|split; [intros x Hx; now right|reflexivity]]]]).
+    + t_one e. split; [reflexivity|now left].
+    + t_one e. rewrite H2. split; [reflexivity|right; eexists; now left].
+    + t_one e. rewrite H2. split; [reflexivity|right; eexists; now left].
+  - (* WCas *)
+    rewrite H2. cbn [is_starting]. rewrite Nat.eqb_refl. cbn [negb].
+    destruct (head (grp g (tgrp (tok g e)))) as [|l] eqn:Eh; cbn [fst snd].
+    + split; [|split; [g_same|split; [discriminate|split; [intros x Hx; now right|reflexivity]]]].
+      t_one e. split; [reflexivity|now left].
+    + destruct (nxt_eqb nx (hptr (HList l)) && negb sp); cbn [fst snd].
+      * split; [|split; [g_same|split; [discriminate|split; [intros x Hx; exact Hx|reflexivity]]]].
+        t_one e. exact I.
+      * split; [|split; [g_same|split; [discriminate|split; [intros x Hx; now right|reflexivity]]]].
+        t_one e. rewrite H2. split; [reflexivity|right; eexists; now left].
+  - (* WGrant *)
+    rewrite H2. cbn [is_granting]. rewrite Nat.eqb_refl. cbn [negb fst snd].
+    assert (X : forall g1, tok g1 = fset (tok g) e (set_st (tok g e) (if tauto (tok g e) then TAuto u else TLive)) ->
+              grp g1 = grp g -> ngrp g1 = ngrp g ->
+      (forall e0, (tok_same g g1 e0 /\ ~ In e0 [e]) \/ backed_t g1 (if tauto (tok g e) then WRel e :: rest else rest) u e0) /\
+      (forall k, (ph_same g g1 k /\ ~ In k []) \/ backed_g g1 (if tauto (tok g e) then WRel e :: rest else rest) u k) /\
+      (forall k, None = Some k -> head (grp g1 k) = HSent) /\
+      (forall x, In x rest -> In x (if tauto (tok g e) then WRel e :: rest else rest)) /\ ngrp g1 = ngrp g).
+    { intros g1 E1 E2 E3. split; [|split; [|split; [discriminate|split; [|exact E3]]]].
+      - intros e0. destruct (Nat.eq_dec e0 e) as [->|Hne].
+        + right. unfold backed_t. rewrite E1, fset_same. cbn. destruct (tauto (tok g e)); exact I.
+        + left. split; [unfold tok_same; rewrite E1, fset_other by exact Hne; split; reflexivity|intros [X|[]]; congruence].
+      - intros k0. left. split; [unfold ph_same; rewrite E2; split; reflexivity|intros []].
+      - intros x Hx. destruct (tauto (tok g e)); [now right|exact Hx]. }
+    destruct (tuse (tok g e)); apply X; reflexivity.
+  - (* WRel *)
+    rewrite H2. cbn [negb].
+    destruct (do_rel_post u g e rest) as [R1 [R2 [R3 [R4 R5]]]].
+    split; [|split; [|split; [discriminate|split; [exact R4|exact R5]]]].
+    + intros e0. destruct (Nat.eq_dec e0 e) as [->|Hne].
+      * right. unfold backed_t. rewrite R2. exact I.
+      * left. split; [unfold tok_same; rewrite R1 by exact Hne; split; reflexivity|intros [X|[]]; congruence].
+    + intros k0. destruct (R3 k0) as [X|X]; [left; split; [exact X|intros []]|right; exact X].
+  - (* WDv *)
+    rewrite H2. cbn [Nat.eqb]. rewrite Nat.eqb_refl. cbn [andb negb fst snd].
+    split; [t_same|split; [|split; [discriminate|split; [intros x Hx; exact Hx|rewrite ngrp_vdec; reflexivity]]]].
+    intros k0. destruct (Nat.eq_dec k0 k) as [->|Hne].
+    + right. unfold backed_g. rewrite grp_vdec. cbn. rewrite fset_same. cbn.
+      split; [intros _ _; split; [reflexivity|now left]|discriminate].
+    + left. split; [unfold ph_same; rewrite grp_vdec; cbn; rewrite fset_other by exact Hne; split; reflexivity
+                   |intros [X|[]]; congruence].
+  - (* WDn *)
+    rewrite H2. cbn [Nat.eqb]. rewrite Nat.eqb_refl. cbn [andb negb].
+    destruct (linked (grp g k)) eqn:El; cbn [fst snd].
+    + split; [|split; [|split; [discriminate|split; [intros x Hx; right; now right|reflexivity]]]].
+      * intros e0. destruct (Nat.eq_dec e0 (ntok g)) as [->|Hne].
+        -- right. unfold backed_t. cbn. rewrite fset_same. exact I.
+        -- left. split; [unfold tok_same; cbn; rewrite fset_other by exact Hne; split; reflexivity|intros []].
+      * intros k0. destruct (Nat.eq_dec k0 k) as [->|Hne].
+        -- right. unfold backed_g. cbn. rewrite fset_same. cbn.
+           split; [intros _ X; contradiction|intros _ _; right; eexists; now left].
+        -- left. split; [unfold ph_same; cbn; rewrite fset_other by exact Hne; split; reflexivity|intros [X|[]]; congruence].
+    + split; [t_same|split; [|split; [discriminate|split; [intros x Hx; exact Hx|reflexivity]]]].
+      intros k0. destruct (Nat.eq_dec k0 k) as [->|Hne].
+      * right. unfold backed_g. cbn. rewrite fset_same. cbn.
+        split; [intros _ X; contradiction|]. intros Hs _. exfalso.
+        destruct (p3 _ _ HP k Hs) as [X|X]; [congruence|lia].
+      * left. split; [unfold ph_same; cbn; rewrite fset_other by exact Hne; split; reflexivity|intros [X|[]]; congruence].
+  - (* WDx k (Some e) *)
+    rewrite H2. cbn [is_done]. rewrite !Nat.eqb_refl. cbn [andb negb].
+    destruct H4 as [l Hl]. rewrite Hl. cbn [fst snd].
+    split; [|split; [g_same|split; [|split; [intros x Hx; apply in_or_app; now right|reflexivity]]]].
+    + intros e0. destruct (in_dec Nat.eq_dec e0 l) as [Hin|Hin].
+      * right. unfold backed_t. cbn. rewrite take_all_spec. destruct (in_dec Nat.eq_dec e0 l); [|contradiction]. cbn.
+        split; [reflexivity|]. apply in_or_app. left. apply in_map. exact Hin.
+      * left. split; [|intros []]. unfold tok_same. cbn. rewrite take_all_spec.
+        destruct (in_dec Nat.eq_dec e0 l); [contradiction|]. split; reflexivity.
+    + intros k0 Ek. injection Ek as <-. cbn. rewrite ?fset_same. reflexivity.
+  - (* WDx 0 None *)
+    cbn [Nat.eqb negb]. destruct H3 as [l Hl]. rewrite Hl. cbn [fst snd].
+    split; [|split; [g_same|split; [|split; [intros x Hx; apply in_or_app; now right|reflexivity]]]].
+    + intros e0. destruct (in_dec Nat.eq_dec e0 l) as [Hin|Hin].
+      * right. unfold backed_t. cbn. rewrite take_all_spec. destruct (in_dec Nat.eq_dec e0 l); [|contradiction]. cbn.
+        split; [reflexivity|]. apply in_or_app. left. apply in_map. exact Hin.
+      * left. split; [|intros []]. unfold tok_same. cbn. rewrite take_all_spec.
+        destruct (in_dec Nat.eq_dec e0 l); [contradiction|]. split; reflexivity.
+    + intros k0 Ek. injection Ek as <-. cbn. rewrite ?fset_same. reflexivity.
+  - (* WMv *)
+    rewrite H2, H3. cbn [orb negb fst snd].
+    split; [t_same|split; [g_same|split; [discriminate|split; [intros x Hx; exact Hx|rewrite ngrp_vdec; reflexivity]]]].
+Qed.
+
+Lemma cmd_post u g c : GL g ->
+  (forall e, tok_same g (fst (do_cmd u g c)) e \/ backed_t (fst (do_cmd u g c)) (snd (do_cmd u g c)) u e) /\
+  (forall k, (ph_same g (fst (do_cmd u g c)) k /\ (k < ngrp (fst (do_cmd u g c)) -> k < ngrp g)) \/
+             backed_g (fst (do_cmd u g c)) (snd (do_cmd u g c)) u k) /\
+  (ngrp g = 0 -> 1 <= ngrp (fst (do_cmd u g c)) -> In (WDx 0 None) (snd (do_cmd u g c))) /\
+  (forall p, S p < ngrp (fst (do_cmd u g c)) -> gphase (grp g p) = 3 -> S p < ngrp g) /\
+  ngrp g <= ngrp (fst (do_cmd u g c)).
+Proof.
+  intros [HI [_ [_ [_ HE]]]].
+  assert (Hid : forall g' l', tok g' = tok g -> grp g' = grp g -> ngrp g' = ngrp g ->
+    (forall e, tok_same g g' e \/ backed_t g' l' u e) /\
+    (forall k, (ph_same g g' k /\ (k < ngrp g' -> k < ngrp g)) \/ backed_g g' l' u k) /\
+    (ngrp g = 0 -> 1 <= ngrp g' -> In (WDx 0 None) l') /\
+    (forall p, S p < ngrp g' -> gphase (grp g p) = 3 -> S p < ngrp g) /\ ngrp g <= ngrp g').
+  { intros g' l' E1 E2 E3. unfold tok_same, ph_same. rewrite E1, E2, E3. repeat split; auto; lia. }
+  destruct c as [sp|kd|e auto usev|e|e|e|e|]; cbn [do_cmd].
+  - apply Hid; reflexivity.
+  - destruct (malive g) eqn:Eal; cbn [negb]; [|apply Hid; reflexivity].
+    assert (Hjoin : forall k nk, tst nk = TSender ->
+      let g' := with_mutex (new_tok (upd_grp g k (set_refs (grp g k) (S (refs (grp g k))))) nk) (mstate g) (mprev g) true (S (nreq g)) in
+      (forall e, tok_same g g' e \/ backed_t g' [] u e) /\
+      (forall k, (ph_same g g' k /\ (k < ngrp g' -> k < ngrp g)) \/ backed_g g' [] u k) /\
+      (ngrp g = 0 -> 1 <= ngrp g' -> In (WDx 0 None) []) /\
+      (forall p, S p < ngrp g' -> gphase (grp g p) = 3 -> S p < ngrp g) /\ ngrp g <= ngrp g').
+    { intros k nk Hs. cbn. split; [|split; [|split; [lia|split; [auto|lia]]]].
+      - intros e0. destruct (Nat.eq_dec e0 (ntok g)) as [->|Hne].
+        + right. unfold backed_t. cbn. rewrite fset_same, Hs. exact I.
+        + left. unfold tok_same. cbn. rewrite fset_other by exact Hne. split; reflexivity.
+      - intros k0. left. split; [|cbn; auto]. unfold ph_same. cbn. fse_goal; cbn; split; reflexivity. }
+    assert (Hlink : forall p nk nk2 kd0 mp nr, mstate g = Some p -> tst nk = TSender -> tst nk2 = TTemp u ->
+      let g' := with_mutex (new_tok (new_tok (with_ngrp (upd_grp (upd_grp (with_val g (S (vrefs g)) (vfreed g)) p
+                   (set_linked (grp g p) true)) (ngrp g) (newg kd0 3)) (S (ngrp g))) nk) nk2) (Some (ngrp g)) mp true nr in
+      forall l', (forall e, tok_same g g' e \/ backed_t g' l' u e) /\
+      (forall k, (ph_same g g' k /\ (k < ngrp g' -> k < ngrp g)) \/ backed_g g' l' u k) /\
+      (ngrp g = 0 -> 1 <= ngrp g' -> In (WDx 0 None) l') /\
+      (forall p, S p < ngrp g' -> gphase (grp g p) = 3 -> S p < ngrp g) /\ ngrp g <= ngrp g').
+    { intros p nk nk2 kd0 mp nr Ems Hs Hs2 g' l'. subst g'. cbn.
+      pose proof (a6 _ _ _ _ _ _ HI p Ems) as Hp.
+      split; [|split; [|split; [lia|split; [|lia]]]].
+      - intros e0. destruct (Nat.eq_dec e0 (S (ntok g))) as [->|Hne].
+        + right. unfold backed_t. cbn. rewrite fset_same, Hs2. exact I.
+        + destruct (Nat.eq_dec e0 (ntok g)) as [->|Hne2].
+          * right. unfold backed_t. cbn. rewrite fset_other by exact Hne. rewrite fset_same, Hs. exact I.
+          * left. unfold tok_same. cbn. rewrite !fset_other by assumption. split; reflexivity.
+      - intros k0. destruct (Nat.eq_dec k0 (ngrp g)) as [->|Hne].
+        + right. unfold backed_g. cbn. rewrite fset_same. cbn. split; [intros; lia|discriminate].
+        + left. split; [|cbn; lia]. unfold ph_same. cbn. rewrite fset_other by exact Hne. fse_goal; cbn; split; reflexivity.
+      - intros q Hq Hph. destruct (Nat.eq_dec (S q) (ngrp g)) as [E|Hne]; [|lia]. exfalso.
+        assert (q = p) by lia. subst q.
+        assert (Hr : 1 <= refs (grp g p)).
+        { rewrite (a2 _ _ _ _ _ _ HI p) by lia. rewrite Ems. cbn. rewrite Nat.eqb_refl. cbn. lia. }
+        pose proof (a8 _ _ _ _ _ _ HI p ltac:(lia) ltac:(lia)). lia. }
+    assert (Hfirst : forall nk kd0 r mp nr, mstate g = None -> tst nk = TSender ->
+      let g' := with_mutex (new_tok (with_ngrp (upd_grp (with_val g (S (vrefs g)) (vfreed g)) (ngrp g) (newg kd0 r)) (S (ngrp g))) nk)
+                  (Some (ngrp g)) mp true nr in
+      (forall e, tok_same g g' e \/ backed_t g' [WDx (ngrp g) None] u e) /\
+      (forall k, (ph_same g g' k /\ (k < ngrp g' -> k < ngrp g)) \/ backed_g g' [WDx (ngrp g) None] u k) /\
+      (ngrp g = 0 -> 1 <= ngrp g' -> In (WDx 0 None) [WDx (ngrp g) None]) /\
+      (forall p, S p < ngrp g' -> gphase (grp g p) = 3 -> S p < ngrp g) /\ ngrp g <= ngrp g').
+    { intros nk kd0 r mp nr Ems Hs g'. subst g'. cbn.
+      pose proof (a6' _ _ _ _ _ _ HI Ems Eal) as Hn.
+      split; [|split; [|split; [intros E _; rewrite E; now left|split; [intros; lia|lia]]]].
+      - intros e0. destruct (Nat.eq_dec e0 (ntok g)) as [->|Hne].
+        + right. unfold backed_t. cbn. rewrite fset_same, Hs. exact I.
+        + left. unfold tok_same. cbn. rewrite fset_other by exact Hne. split; reflexivity.
+      - intros k0. destruct (Nat.eq_dec k0 (ngrp g)) as [->|Hne].
+        + right. unfold backed_g. cbn. rewrite fset_same. cbn. split; [intros; lia|discriminate].
+        + left. split; [|cbn; lia]. unfold ph_same. cbn. rewrite fset_other by exact Hne. split; reflexivity. }
+    destruct kd, (mprev g), (mstate g) as [p|] eqn:Ems; cbn [fst snd];
+      first [ apply Hjoin; reflexivity | apply (Hlink p); reflexivity | apply Hfirst; reflexivity ].
+  - destruct (Nat.ltb e (ntok g) && is_sender (tst (tok g e))); [|apply Hid; reflexivity].
+    cbn [fst snd]. split; [|split; [|split; [cbn; lia|split; [cbn; auto|cbn; lia]]]].
+    + intros e0. destruct (Nat.eq_dec e0 e) as [->|Hne].
+      * right. unfold backed_t. cbn. rewrite fset_same. cbn. split; [reflexivity|left; now left].
+      * left. unfold tok_same. cbn. rewrite fset_other by exact Hne. split; reflexivity.
+    + intros k0. left. split; [split; reflexivity|cbn; auto].
+  - destruct (Nat.ltb e (ntok g) && is_sender (tst (tok g e))); [|apply Hid; reflexivity].
+    cbn [fst snd]. split; [|split; [|split; [cbn; lia|split; [cbn; auto|cbn; lia]]]].
+    + intros e0. destruct (Nat.eq_dec e0 e) as [->|Hne].
+      * right. unfold backed_t. cbn. rewrite fset_same. exact I.
+      * left. unfold tok_same. cbn. rewrite fset_other by exact Hne. split; reflexivity.
+    + intros k0. left. split; [split; reflexivity|cbn; auto].
+  - destruct (Nat.ltb e (ntok g) && kind_eqb (gkind (grp g (tgrp (tok g e)))) KR &&
+              (is_sender (tst (tok g e)) || is_live (tst (tok g e)))) eqn:Eg; [|apply Hid; reflexivity].
+    apply andb_true_iff in Eg. destruct Eg as [_ Es].
+    cbn [fst snd]. split; [|split; [|split; [cbn; lia|split; [cbn; auto|cbn; lia]]]].
+    + intros e0. destruct (Nat.eq_dec e0 (ntok g)) as [->|Hne].
+      * right. unfold backed_t. cbn. rewrite fset_same. cbn.
+        apply orb_true_iff in Es. destruct (tst (tok g e)); try exact I; destruct Es; discriminate.
+      * left. unfold tok_same. cbn. rewrite fset_other by exact Hne. split; reflexivity.
+    + intros k0. left. split; [|cbn; auto]. unfold ph_same. cbn. fse_goal; cbn; split; reflexivity.
+  - destruct (Nat.ltb e (ntok g) && is_live (tst (tok g e))); [|apply Hid; reflexivity].
+    destruct (do_rel_post u g e []) as [R1 [R2 [R3 [R4 R5]]]].
+    split; [|split; [|split; [rewrite R5; lia|split; [rewrite R5; auto|rewrite R5; lia]]]].
+    + intros e0. destruct (Nat.eq_dec e0 e) as [->|Hne].
+      * right. unfold backed_t. rewrite R2. exact I.
+      * left. unfold tok_same. rewrite R1 by exact Hne. split; reflexivity.
+    + intros k0. destruct (R3 k0) as [X|X]; [left; split; [exact X|rewrite R5; auto]|right; exact X].
+  - destruct (Nat.ltb e (ntok g) && is_live (tst (tok g e))); apply Hid; reflexivity.
+  - destruct (malive g) eqn:Eal; cbn [negb]; [|apply Hid; reflexivity].
+    destruct (mstate g) eqn:Ems; cbn [fst snd]; [|apply Hid; reflexivity].
+    split; [|split; [|split; [cbn; lia|split; [cbn; auto|cbn; lia]]]].
+    + intros e0. destruct (Nat.eq_dec e0 (ntok g)) as [->|Hne].
+      * right. unfold backed_t. cbn. rewrite fset_same. exact I.
+      * left. unfold tok_same. cbn. rewrite fset_other by exact Hne. split; reflexivity.
+    + intros k0. left. split; [split; reflexivity|cbn; auto].
+Qed.
+
+(* the converse invariant: every transient owner state, every running destructor and every pending done() is
+   backed by a work item *)
+Record Conv (g : shared) (ls : nat -> list work) : Prop := {
+  c_st : forall e t, tst (tok g e) = TStarting t -> In (WLoad e) (ls t) \/ exists nx, In (WCas e nx) (ls t);
+  c_gr : forall e t, tst (tok g e) = TGranting t -> In (WGrant e) (ls t);
+  c_dn : forall k, k < ngrp g -> 1 <= gphase (grp g k) -> gphase (grp g k) <> 3 -> In (WDn k) (ls (gown (grp g k)));
+  c_dx : forall p, S p < ngrp g -> gphase (grp g p) = 3 ->
+           head (grp g (S p)) = HSent \/ exists t e, In (WDx (S p) (Some e)) (ls t);
+  c_d0 : 1 <= ngrp g -> head (grp g 0) = HSent \/ exists t, In (WDx 0 None) (ls t)
+}.
+
+Lemma Conv_init : Conv rw_init rw_locals.
+Proof. constructor; cbn; intros; try discriminate; lia. Qed.
+
+Lemma Conv_step_work sp u g (ls : nat -> list work) w rest : Inv g ls -> Conv g ls -> ls u = w :: rest ->
+  Conv (fst (do_work sp u g w rest)) (upd ls u (snd (do_work sp u g w rest))).
+Proof.
+  intros HInv [C1 C2 C3 C4 C5] El.
+  pose proof (i_wl _ _ HInv u) as Hwu. rewrite El in Hwu.
+  destruct (work_post sp u g w rest (i_gl _ _ HInv) (i_gs _ _ HInv) (i_gp _ _ HInv) Hwu) as [PT [PG [PH [PK PN]]]].
+  set (g' := fst (do_work sp u g w rest)) in *. set (l' := snd (do_work sp u g w rest)) in *.
+  assert (Hkeep : forall t x, In x (ls t) -> (t = u -> x <> w) -> In x (upd ls u l' t)).
+  { intros t x Hin Hx. unfold upd. destruct (Nat.eqb_spec t u); [subst|exact Hin].
+    rewrite El in Hin. destruct Hin as [<-|Hin]; [exfalso; apply Hx; reflexivity|apply PK; exact Hin]. }
+  constructor.
+  - intros e t E. destruct (PT e) as [[[Hs _] Hn]|B].
+    + rewrite Hs in E. destruct (C1 e t E) as [X|[nx X]].
+      * left. apply Hkeep; [exact X|]. intros _ Ew. apply Hn. rewrite <- Ew. now left.
+      * right. exists nx. apply Hkeep; [exact X|]. intros _ Ew. apply Hn. rewrite <- Ew. now left.
+    + unfold backed_t in B. rewrite E in B. destruct B as [-> B]. rewrite upd_same. exact B.
+  - intros e t E. destruct (PT e) as [[[Hs _] Hn]|B].
+    + rewrite Hs in E. apply Hkeep; [exact (C2 e t E)|]. intros _ Ew. apply Hn. rewrite <- Ew. now left.
+    + unfold backed_t in B. rewrite E in B. destruct B as [-> B]. rewrite upd_same. exact B.
+  - intros k Hk Hp1 Hp3. rewrite PN in Hk. destruct (PG k) as [[[Hs Ho] Hn]|[B _]].
+    + rewrite Hs in Hp1, Hp3. rewrite Ho. apply Hkeep; [exact (C3 k Hk Hp1 Hp3)|]. intros _ Ew. apply Hn. rewrite <- Ew. now left.
+    + destruct (B Hp1 Hp3) as [-> X]. rewrite upd_same. exact X.
+  - intros p Hp E. destruct (PG p) as [[[Hs _] Hn]|[_ B]].
+    + rewrite Hs in E. rewrite PN in Hp. destruct (C4 p Hp E) as [X|[t [e X]]].
+      * left. apply sent_work. exact X.
+      * destruct (Nat.eq_dec t u) as [->|Hne].
+        -- rewrite El in X. destruct X as [Ew|X]; [left; apply PH; rewrite Ew; reflexivity|].
+           right. exists u, e. rewrite upd_same. apply PK. exact X.
+        -- right. exists t, e. rewrite upd_other by exact Hne. exact X.
+    + destruct (B Hp E) as [X|[e X]]; [left; exact X|right; exists u, e; rewrite upd_same; exact X].
+  - intros Hn. rewrite PN in Hn. destruct (C5 Hn) as [X|[t X]].
+    + left. apply sent_work. exact X.
+    + destruct (Nat.eq_dec t u) as [->|Hne].
+      * rewrite El in X. destruct X as [Ew|X]; [left; apply PH; rewrite Ew; reflexivity|].
+        right. exists u. rewrite upd_same. apply PK. exact X.
+      * right. exists t. rewrite upd_other by exact Hne. exact X.
+Qed.
+
+Lemma Conv_step_cmd u g (ls : nat -> list work) c : Inv g ls -> Conv g ls -> ls u = [] ->
+  Conv (fst (do_cmd u g c)) (upd ls u (snd (do_cmd u g c))).
+Proof.
+  intros HInv [C1 C2 C3 C4 C5] El.
+  destruct (cmd_post u g c (i_gl _ _ HInv)) as [PT [PG [P0 [PS PN]]]].
+  set (g' := fst (do_cmd u g c)) in *. set (l' := snd (do_cmd u g c)) in *.
+  assert (Hkeep : forall t x, In x (ls t) -> In x (upd ls u l' t)).
+  { intros t x Hin. unfold upd. destruct (Nat.eqb_spec t u); [subst; rewrite El in Hin; destruct Hin|exact Hin]. }
+  constructor.
+  - intros e t E. destruct (PT e) as [[Hs _]|B].
+    + rewrite Hs in E. destruct (C1 e t E) as [X|[nx X]]; [left|right; exists nx]; apply Hkeep; exact X.
+    + unfold backed_t in B. rewrite E in B. destruct B as [-> B]. rewrite upd_same. exact B.
+  - intros e t E. destruct (PT e) as [[Hs _]|B].
+    + rewrite Hs in E. apply Hkeep. exact (C2 e t E).
+    + unfold backed_t in B. rewrite E in B. destruct B as [-> B]. rewrite upd_same. exact B.
+  - intros k Hk Hp1 Hp3. destruct (PG k) as [[[Hs Ho] Hlt]|[B _]].
+    + rewrite Hs in Hp1, Hp3. rewrite Ho. apply Hkeep. exact (C3 k (Hlt Hk) Hp1 Hp3).
+    + destruct (B Hp1 Hp3) as [-> X]. rewrite upd_same. exact X.
+  - intros p Hp E. destruct (PG p) as [[[Hs _] Hlt]|[_ B]].
+    + rewrite Hs in E. pose proof (PS p Hp E) as Hp'. destruct (C4 p Hp' E) as [X|[t [e X]]].
+      * left. apply sent_cmd; [exact Hp'|exact X].
+      * right. exists t, e. apply Hkeep. exact X.
+    + destruct (B Hp E) as [X|[e X]]; [left; exact X|right; exists u, e; rewrite upd_same; exact X].
+  - intros Hn. destruct (Nat.eq_dec (ngrp g) 0) as [E0|E0].
+    + right. exists u. rewrite upd_same. apply P0; assumption.
+    + destruct (C5 ltac:(lia)) as [X|[t X]].
+      * left. apply sent_cmd; [lia|exact X].
+      * right. exists t. apply Hkeep. exact X.
+Qed.
+
+Definition Inv2 (g : shared) (ls : nat -> list work) : Prop := Inv g ls /\ Conv g ls.
+
+Lemma Inv2_step g ls u c : Inv2 g ls -> contract_ok (g, ls) (u, c) ->
+  Inv2 (fst (rw_tstep c u g (ls u))) (upd ls u (snd (rw_tstep c u g (ls u)))).
+Proof.
+  intros [HInv HC] Hc. split; [apply Inv_step; assumption|].
+  destruct (ls u) as [|w rest] eqn:El; cbn [rw_tstep].
+  - apply Conv_step_cmd; assumption.
+  - apply Conv_step_work; assumption.
+Qed.
+
+Theorem Inv2_run sched : forall c, Inv2 (fst c) (snd c) -> contract_from c sched ->
+  Inv2 (fst (run rw_tstep sched c)) (snd (run rw_tstep sched c)).
+Proof.
+  induction sched as [|[u o] s IH]; intros [g ls] H Hc; [exact H|].
+  destruct Hc as [Hc1 Hc2]. rewrite run_cons. apply IH; [|exact Hc2].
+  pose proof (Inv2_step g ls u o H Hc1) as X. cbn [step fst snd].
+  destruct (rw_tstep o u g (ls u)) as [g' l']. exact X.
+Qed.
+
+(* rw_progress: in a reachable state (contract-respecting schedule) in which every thread is idle, every started
+   access whose predecessor shared states have all been released (count 0) has been granted *)
+Theorem rw_progress sched : contract_from (rw_init, rw_locals) sched ->
+  let g := fst (rw_run sched) in let ls := snd (rw_run sched) in
+  (forall t, ls t = []) ->
+  forall e, tstarted (tok g e) = true -> (forall j, j < tgrp (tok g e) -> refs (grp g j) = 0) ->
+  In e (grant_toks (elog g)).
+Proof.
+  intros Hc g ls Hidle e Hst Hrel.
+  assert (H2 : Inv2 g ls) by (apply (Inv2_run sched (rw_init, rw_locals)); [split; [exact Inv_init|exact Conv_init]|exact Hc]).
+  destruct H2 as [HInv [C1 C2 C3 C4 C5]].
+  destruct (i_gl _ _ HInv) as [HI [_ [HB _]]]. pose proof (i_gp _ _ HInv) as HP.
+  destruct (GIQ_run sched) as [_ HQ]. fold g in HQ.
+  destruct (b4 _ _ _ HB e Hst) as [Hp|Hg]; [exfalso|exact Hg].
+  destruct (tst (tok g e)) eqn:Es; try discriminate.
+  - destruct (C1 e t Es) as [X|[nx X]]; rewrite Hidle in X; destruct X.
+  - destruct (HQ e Es) as [l [Hl Hin]].
+    assert (Hk : tgrp (tok g e) < ngrp g) by (apply (a1 _ _ _ _ _ _ HI); rewrite Es; reflexivity).
+    destruct (tgrp (tok g e)) as [|p] eqn:Ek.
+    + destruct (C5 ltac:(lia)) as [X|[t X]]; [congruence|rewrite Hidle in X; destruct X].
+    + pose proof (Hrel p ltac:(lia)) as Hr0.
+      pose proof (p2 _ _ HP p ltac:(lia) Hr0) as Hph.
+      destruct (Nat.eq_dec (gphase (grp g p)) 3) as [E3|E3].
+      * destruct (C4 p Hk E3) as [X|[t [e' X]]]; [congruence|rewrite Hidle in X; destruct X].
+      * pose proof (C3 p ltac:(lia) Hph E3) as X. rewrite Hidle in X. destruct X.
+  - pose proof (C2 e t Es) as X. rewrite Hidle in X. destruct X.
+Qed.
+
+(* ---- a schedule recorded by the lock-step harness (harness/c04_rw.cpp), in the harness's own vocabulary:
+   accesses are numbered in the order of the request / copy commands; the driver (ocaml/drv_c04.ml) maps an
+   access to the token allocated by that command *)
+Inductive hop := Hq (kd : kind) | Hs (a : nat) | Ht (a : nat) | HD (a : nat) | Ho (a : nat) | Hc (a : nat)
+               | Hr (a : nat) | Hu (a : nat) | Hx | Hdot.
+Fixpoint hflat (fuel : nat) (c : shared * (nat -> list work)) (accs : list nat) (ents : list (nat * hop))
+  : list (nat * cmd) :=
+  match ents with
+  | [] => []
+  | (t, op) :: s =>
+      let tokof a := nth a accs (ntok (fst c)) in
+      let cm := match op with
+                | Hq kd => CReq kd | Hs a => CStart (tokof a) false false | Ht a => CStart (tokof a) true true
+                | HD a => CStart (tokof a) true false | Ho a => CDropOp (tokof a) | Hc a => CCopy (tokof a)
+                | Hr a => CRelease (tokof a) | Hu a => CUse (tokof a) | Hx => CDestroy | Hdot => CStep false
+                end in
+      let accs' := match op with Hq _ | Hc _ => accs ++ [ntok (fst c)] | _ => accs end in
+      let c1 := step rw_tstep c (t, cm) in
+      let tl := seg_tail fuel t c1 in
+      (t, cm) :: tl ++ hflat fuel (run rw_tstep tl c1) accs' s
+  end.
+
+(* `c04_rw 1 1 0 12`, case 0 (mode T, 4 threads):
+   0:qW,0:.,2:s0,3:qR,2:.,1:D1,1:.,3:qR,1:.,1:qR,2:.,1:s3,1:.,1:.,3:s2,3:.,1:r0,1:.,2:x,1:.,1:.,2:u3,3:.,3:.,2:u2,0:r2,1:r3 *)
+Definition harness_case_1_0 : list (nat * hop) :=
+  [(0, Hq KW); (0, Hdot); (2, Hs 0); (3, Hq KR); (2, Hdot); (1, HD 1); (1, Hdot); (3, Hq KR); (1, Hdot); (1, Hq KR);
+   (2, Hdot); (1, Hs 3); (1, Hdot); (1, Hdot); (3, Hs 2); (3, Hdot); (1, Hr 0); (1, Hdot); (2, Hx); (1, Hdot);
+   (1, Hdot); (2, Hu 3); (3, Hdot); (3, Hdot); (2, Hu 2); (0, Hr 2); (1, Hr 3)].
+(* `c04_rw 1 3 2 12`, case 2 (mode T, 4 threads; copies, interleaved requests of four threads):
+   2:qR,2:.,2:D0,1:qW,2:.,3:qR,2:.,0:c2,3:t2,2:.,3:.,3:.,1:s3,3:s1,0:qR,1:.,3:.,2:qW,2:s4,1:.,1:s5,2:.,1:.,0:x,1:.,3:.,3:r1,
+   3:.,2:.,2:.,0:c4,2:c4,3:.,0:r3,3:.,1:r7,3:r6,0:r4,0:.,0:.,0:r5 *)
+Definition harness_case_1_2 : list (nat * hop) :=
+  [(2, Hq KR); (2, Hdot); (2, HD 0); (1, Hq KW); (2, Hdot); (3, Hq KR); (2, Hdot); (0, Hc 2); (3, Ht 2); (2, Hdot);
+   (3, Hdot); (3, Hdot); (1, Hs 3); (3, Hs 1); (0, Hq KR); (1, Hdot); (3, Hdot); (2, Hq KW); (2, Hs 4); (1, Hdot);
+   (1, Hs 5); (2, Hdot); (1, Hdot); (0, Hx); (1, Hdot); (3, Hdot); (3, Hr 1); (3, Hdot); (2, Hdot); (2, Hdot);
+   (0, Hc 4); (2, Hc 4); (3, Hdot); (0, Hr 3); (3, Hdot); (1, Hr 7); (3, Hr 6); (0, Hr 4); (0, Hdot); (0, Hdot); (0, Hr 5)].
+
+Lemma harness_cases_contract :
+  let s0 := hflat 1000 (rw_init, rw_locals) [] harness_case_1_0 in
+  let s2 := hflat 1000 (rw_init, rw_locals) [] harness_case_1_2 in
+  (harness_from None (rw_init, rw_locals) s0 = true /\ contract_from (rw_init, rw_locals) s0 /\
+   bad (fst (rw_run s0)) = false /\ length s0 = 36 /\ (forall t, t < 4 -> snd (rw_run s0) t = []) /\
+   grant_toks (elog (fst (rw_run s0))) = [3; 1; 4; 0]) /\
+  (harness_from None (rw_init, rw_locals) s2 = true /\ contract_from (rw_init, rw_locals) s2 /\
+   bad (fst (rw_run s2)) = false).
+Proof.
+  intros s0 s2.
+  assert (H0 : harness_from None (rw_init, rw_locals) s0 = true) by (vm_compute; reflexivity).
+  assert (H2 : harness_from None (rw_init, rw_locals) s2 = true) by (vm_compute; reflexivity).
+  pose proof (rw_harness_contract _ H0) as C0. pose proof (rw_harness_contract _ H2) as C2.
+  split; [split; [exact H0|split; [exact C0|split; [exact (rw_no_bad_guarded _ C0)|]]]
+         |split; [exact H2|split; [exact C2|exact (rw_no_bad_guarded _ C2)]]].
+  split; [vm_compute; reflexivity|]. split; [|vm_compute; reflexivity].
+  intros t Ht. destruct t as [|[|[|[|t]]]]; try lia; vm_compute; reflexivity.
+Qed.
+
+Theorem rw_worklist_complete sched : contract_from (rw_init, rw_locals) sched ->
+  let g := fst (rw_run sched) in let ls := snd (rw_run sched) in
+  (forall e t, tst (tok g e) = TStarting t -> In (WLoad e) (ls t) \/ exists nx, In (WCas e nx) (ls t)) /\
+  (forall e t, tst (tok g e) = TGranting t -> In (WGrant e) (ls t)) /\
+  (forall k, k < ngrp g -> 1 <= gphase (grp g k) -> gphase (grp g k) <> 3 -> In (WDn k) (ls (gown (grp g k)))) /\
+  (forall p, S p < ngrp g -> gphase (grp g p) = 3 ->
+     head (grp g (S p)) = HSent \/ exists t e, In (WDx (S p) (Some e)) (ls t)) /\
+  (1 <= ngrp g -> head (grp g 0) = HSent \/ exists t, In (WDx 0 None) (ls t)).
+Proof.
+  intros Hc g ls.
+  assert (H2 : Inv2 g ls) by (apply (Inv2_run sched (rw_init, rw_locals)); [split; [exact Inv_init|exact Conv_init]|exact Hc]).
+  destruct H2 as [_ [C1 C2 C3 C4 C5]]. auto.
+Qed.
